@@ -66,6 +66,8 @@ type Obs struct {
 
 // Runner drives one agent.
 type Runner struct {
+	// AgentNodeID: the Node ID the agent is configured with (cpiface.hostname); empty = its N4 address
+	AgentNodeID string
 	A     *rig.Agent
 	B     *rig.Bessd
 	P4    *rig.P4d
